@@ -803,7 +803,12 @@ func parseStringLiteral(literal string) (string, error) {
 				// TODO strict
 				value = rune(chr) - '0'
 				j := 0
-				for ; j < 2; j++ {
+				// B.1.2: ZeroToThree OctalDigit OctalDigit | FourToSeven OctalDigit
+				digits := 2
+				if chr >= '4' {
+					digits = 1
+				}
+				for ; j < digits; j++ {
 					if len(str) < j+1 {
 						break
 					}
